@@ -10,31 +10,7 @@
 extern unsigned char nondet_uchar(void);
 void lrtr_dbg(const char *frmt, ...) { (void)frmt; }
 
-static bool spec_known_size(const unsigned char *b, uint32_t len, uint8_t ver, uint8_t type)
-{
-	switch (type) {
-	case 0: return len == 12;
-	case 1: return len == 12;
-	case 2: return len == 8;
-	case 3: return len == 8;
-	case 4: return len == 20;
-	case 6: return len == 32;
-	case 7: return (ver == 0 && len == 12) || (ver == 1 && len == 24);
-	case 8: return len == 8;
-	case 9: return len == 123;
-	case 10: {
-		if (len < 16)
-			return false;
-		uint64_t enc = ((uint64_t)b[8] << 24) | ((uint64_t)b[9] << 16) | ((uint64_t)b[10] << 8) | b[11];
-		if ((uint64_t)len < 16 + enc)
-			return false;
-		uint64_t o = 12 + enc;
-		uint64_t txt = ((uint64_t)b[o] << 24) | ((uint64_t)b[o + 1] << 16) | ((uint64_t)b[o + 2] << 8) | b[o + 3];
-		return (uint64_t)len == 16 + enc + txt;
-	}
-	default: return false;
-	}
-}
+#include "size_spec.h"
 
 int main(void)
 {
